@@ -138,6 +138,14 @@ def api_search(chk, n_cases):
             par = oqupy.TempoParameters(dt=dt, epsrel=eps, dkmax=None, subdiv_limit=None)
             corr = oqupy.PowerLawSD(alpha=rng.choice([0.0005, 0.001]), zeta=1, cutoff=10.0, cutoff_type="exponential", temperature=0.0)
         op = rng.choice([0.5 * sz, 0.5 * sx + 0.2 * sz, np.diag([1.0, 1.0]) * 0.3 + 0.5 * sy])
+        if it == 5 or (it > 5 and dkmax is not None and rng.random() < 0.3):
+            # the memory given as a TIME (every run: 0.3 with dt = 0.1, whose float quotient is 2.9999999999999996), more steps
+            # than the cut-off: both methods must read the same number of memory steps out of it
+            tc_ = 0.3 if it == 5 else (dkmax + rng.choice([0.0, 0.3, -0.3])) * dt
+            if it == 5:
+                dt, n, tau = 0.1, 6, rng.choice([None, 0.15])
+            dkmax = int(round(tc_ / dt))
+            par = oqupy.TempoParameters(dt=dt, epsrel=eps, tcut=tc_, add_correlation_time=tau, subdiv_limit=None)
         if it == 4:
             # every run: strong coupling, a memory cut-off shorter than the run and a very tight tolerance: the two methods agree to
             # a small multiple of the tolerance (1e-8 with epsrel = 1e-11): neither back-end may stop refining before the other
